@@ -1,5 +1,6 @@
 pub mod c01;
 pub mod c04;
+pub mod c11;
 pub mod c12;
 pub mod c14;
 pub mod c15;
@@ -23,6 +24,7 @@ pub fn run(a: &Args) -> Result<ShardOut, String> {
     match a.prop.as_str() {
         "C01" => Ok(c01::run(a)),
         "C20" => Ok(c20::run(a)),
+        "C11" => Ok(c11::run(a)),
         "C12" => Ok(c12::run(a)),
         "C14" => Ok(c14::run(a)),
         "C15" => Ok(c15::run(a)),
